@@ -577,9 +577,21 @@ class Schema(ResolverMap):
             },
         )
 
-        cloned.merge_resolvers(self)
+        # The cloned types already carry their resolvers: only the registries
+        # have to follow. They are copied rather than re-registered as their
+        # entries may refer to names which a transform has since renamed or
+        # removed.
+        cloned._copy_resolver_registries(self)
 
         return cloned
+
+    def _copy_resolver_registries(self, other: "Schema") -> None:
+        self.resolvers = {t: dict(m) for t, m in other.resolvers.items()}
+        self.subscriptions = {
+            t: dict(m) for t, m in other.subscriptions.items()
+        }
+        self.default_resolvers = dict(other.default_resolvers)
+        self.default_resolver = other.default_resolver
 
 
 def _clone_field(field: Field) -> Field:
